@@ -1,4 +1,4 @@
-import IoraModel.Lemmas.ConnectSync
+import IoraModel.Lemmas.ConnectSyncG
 import IoraModel.Model.TsyncFacts
 /-!
 # C04 — Synchronous connect yields a live session or a definite error in time
@@ -11,16 +11,12 @@ complete late, peers that close, timeouts and spurious wake-ups as scheduler cho
 Statements are about the event log the steps append to; a statement about "earlier" events holds because it holds of every
 prefix of every run (the log only grows).
 -/
-namespace Iora.C04
-open Iora Iora.ConnectSync
 
-/-- The lock/notify skeleton regenerated from `transport_impl.hpp` has the shape the model assumes: `connectSync` holds
-`syncMutex` continuously from before the entry-fence check through `engine->connect`, the registration and the ParkGuard into
-`wait_for`; after the wait there is exactly ONE unlock window, it contains only `engine->close`, and `abandoned` is set before
-it; both handlers complete the waiter under the lock, notify it outside, and `onConnect` checks `abandoned` before erasing. -/
-theorem skeleton_conforms :
-    TsyncFacts.connectLockHeld = true ∧ TsyncFacts.connectCloseWindow = true ∧ TsyncFacts.handlersCompleteUnderLock = true := by
-  decide
+
+namespace Iora.C04.Core
+open Iora Iora.ConnectSync
+/-! The theorems about `run` — the control model as the skeleton facts describe it.  `Iora.C04.*` below restates each for
+`runC cfg` under `cfg.Good`, which `skeleton_conforms` discharges for the configuration the driver runs (`genCfg`). -/
 
 /-- **T1.** A connectSync call returns `ok sid` only for the session its own `engine->connect` created, only after the
 `onConnect` handler delivered that session's completion to it, and never for a session for which any connectSync has issued
@@ -144,5 +140,209 @@ theorem T6_precancelled (s : State) (c : Nat) (hp : (s.callers c).pc = .idle ∨
     (hc : (s.callers c).cancelled = true) :
     (step s (.call c true)).log = s.log ++ [.wrapRet c (.err .cancelled)] ∧ (step s (.call c true)).fifo = s.fifo := by
   rcases hp with hp | hp <;> simp [step, doCall, hp, hc]
+
+
+end Iora.C04.Core
+
+namespace Iora.C04
+open Iora Iora.ConnectSync
+
+/-- The model is INSTANTIATED from the skeleton regenerated from `transport_impl.hpp` (`Model/ConnectSync.lean`: `genCfg`, `stepC`):
+`connectSync` holds `syncMutex` continuously from before the entry-fence check through `engine->connect`, the registration and
+the ParkGuard into `wait_for`; after the wait there is exactly ONE unlock window, it contains only `engine->close`, and
+`abandoned` is set before it; both handlers complete the waiter under the lock, notify it outside, and `onConnect` checks
+`abandoned` before erasing; `wait_for` waits on that lock for exactly the caller's `timeout`, the cancellable wrapper polls in
+100 ms sub-intervals against `deadline = now + timeout` with `min(remaining, subInterval)`; host, port and TLS mode reach
+`engine->connect` unchanged, an engine error is returned as is, the id is the engine's and the timeout exit closes that id. -/
+theorem skeleton_conforms : genCfg.Good := by
+  unfold Cfg.Good genCfg
+  exact ⟨by decide, by decide, by decide, by decide, by decide⟩
+
+/-- **T1.** (every `cfg.Good`, every schedule) A connectSync call returns `ok sid` only for the session its own `engine->connect`
+created, only after the `onConnect` handler delivered that session's completion to it, and never for a session for which any
+connectSync has issued `engine->close`. -/
+theorem T1_ok_is_live (cfg : Cfg) (hg : cfg.Good) (steps : List Step) (c sid' sid : Nat)
+    (h : Ev.attemptRet c (some sid') (.ok sid) ∈ (runC cfg init steps).log) :
+    sid' = sid ∧ Ev.created c sid ∈ (runC cfg init steps).log ∧ Ev.hConnect sid ∈ (runC cfg init steps).log ∧
+    Ev.delivered sid true ∈ (runC cfg init steps).log ∧ ∀ c', Ev.engineClose c' sid ∉ (runC cfg init steps).log := by
+  rw [runC_good hg] at h ⊢; exact Core.T1_ok_is_live steps c sid' sid h
+
+/-- **T2 (suppression, connect).** The global connect callback is never invoked for a session a connectSync created. -/
+theorem T2_no_global_connect (cfg : Cfg) (hg : cfg.Good) (steps : List Step) (c sid : Nat)
+    (h : Ev.globalConnect sid ∈ (runC cfg init steps).log) : Ev.created c sid ∉ (runC cfg init steps).log := by
+  rw [runC_good hg] at h ⊢; exact Core.T2_no_global_connect steps c sid h
+
+/-- **T2 (suppression, close)** — the property's clause as stated; the stricter ORDERED reading is refuted, see `T2_ordered_refuted`. If the global close callback is invoked for a session a
+connectSync created, that session's completion had been delivered to the caller (its result is fixed as `ok sid`), and the call
+that created it returns nothing but `ok sid`: the callback never fires for an id that is not handed to its caller. (True of the
+repaired handlers, F16.) What is NOT true: that the id had ALREADY been returned when the callback fires. -/
+theorem T2_global_close_only_for_handed_out (cfg : Cfg) (hg : cfg.Good) (steps : List Step) (c sid : Nat)
+    (h : Ev.globalClose sid ∈ (runC cfg init steps).log) (hc : Ev.created c sid ∈ (runC cfg init steps).log) :
+    Ev.delivered sid true ∈ (runC cfg init steps).log ∧
+    ∀ r, Ev.attemptRet c (some sid) r ∈ (runC cfg init steps).log → r = .ok sid := by
+  rw [runC_good hg] at h hc ⊢; exact Core.T2_global_close_only_for_handed_out steps c sid h hc
+
+/-- The ORDERED reading of "the global close callback is never invoked for a session a synchronous connect did not hand to its
+caller": whenever `globalClose sid` is logged for a connectSync-created session, `ret ok sid` is already in the log. -/
+def T2_ordered_statement : Prop :=
+  ∀ (steps : List Step) (pre post : List Ev) (c sid : Nat),
+    (run init steps).log = pre ++ Ev.globalClose sid :: post → Ev.created c sid ∈ pre →
+    Ev.attemptRet c (some sid) (.ok sid) ∈ pre
+
+/-- the witness: the connect completes and the handler delivers it (the record is erased), the peer closes at once, the `onClose`
+handler finds no record and fires the GLOBAL close callback — and only then does the caller wake up and return `ok 1` -/
+def orderedWitness : List Step :=
+  [.call 0 false, .cEnter 0, .cConnect 0, .cRegister 0, .cPark 0, .ioPop true, .ioComplete 1, .ioStep, .ioStep,
+   .ioPeerClose 1, .ioStep, .ioStep, .cWake 0 false]
+
+/-- **T2 (ordered) is REFUTED** (observation FC04a; C04 as stated allows returning a session the PEER has already closed and only forbids the callbacks for a session that is NOT handed out, which is `T2_global_close_only_for_handed_out`): the code — `onConnect` erases the pending record when it completes the waiter,
+`onClose` consults only that record — lets the application see `onClose(sid)` for an id it has not yet been given (it is given
+it immediately afterwards, for a session that is already dead). `T2_global_close_only_for_handed_out` is the partial statement. -/
+theorem T2_ordered_refuted : ¬ T2_ordered_statement := by
+  intro h
+  have := h orderedWitness
+    [.created 0 1, .registered 0 1, .hConnect 1, .delivered 1 true, .hClose 1] [.attemptRet 0 (some 1) (.ok 1)] 0 1
+    (by decide) (by decide)
+  revert this; decide
+
+/-- **T3.** Every Timeout return of connectSync's OWN timeout exit is preceded by this call's `engine->close(sid)` (an
+engine-reported connect timeout arrives as the handler-delivered close error, a different result of the model). -/
+theorem T3_timeout_closes (cfg : Cfg) (hg : cfg.Good) (steps : List Step) (c sid : Nat)
+    (h : Ev.attemptRet c (some sid) (.err .timeout) ∈ (runC cfg init steps).log) :
+    Ev.engineClose c sid ∈ (runC cfg init steps).log := by
+  rw [runC_good hg] at h ⊢; exact Core.T3_timeout_closes steps c sid h
+
+/-- **T3 (FIFO).** Once the engine has drained its FIFO, a session for which `engine->close` was issued is closed. -/
+theorem T3_nothing_left_open (cfg : Cfg) (hg : cfg.Good) (steps : List Step) (c sid : Nat)
+    (h : Ev.engineClose c sid ∈ (runC cfg init steps).log) (hq : (runC cfg init steps).fifo = []) :
+    (runC cfg init steps).eng sid = .closed := by
+  rw [runC_good hg] at h hq ⊢; exact Core.T3_nothing_left_open steps c sid h hq
+
+/-- **T3 (a call that does not hand the session out leaves nothing open).** For every connectSync attempt that is over and did
+not return `ok sid` — timed out, failed, refused, woken by teardown, or abandoned by a cancelled / timed-out
+`connectSyncCancellable` (whose sub-attempts all end this way): this call issued `engine->close(sid)` (hence, FIFO drained, the
+session is closed), or the engine itself closed the session, or teardown has begun (engine stop closes everything). -/
+theorem T3_non_ok_leaves_nothing_open (cfg : Cfg) (hg : cfg.Good) (steps : List Step) (c sid : Nat)
+    (hc : Ev.created c sid ∈ (runC cfg init steps).log) (hover : att ((runC cfg init steps).callers c).pc ≠ some sid) :
+    Ev.attemptRet c (some sid) (.ok sid) ∈ (runC cfg init steps).log ∨ Ev.engineClose c sid ∈ (runC cfg init steps).log ∨
+    (runC cfg init steps).eng sid = .closed ∨ (runC cfg init steps).shuttingDown = true := by
+  rw [runC_good hg] at hc hover ⊢
+  have I := reachable_inv steps
+  have I2 := reachable_inv2 steps
+  obtain ⟨r, hr⟩ := I2.CL c sid hc hover
+  cases r with
+  | ok sid' =>
+    have := (I.T1 c sid sid' hr).1
+    subst this; exact Or.inl hr
+  | err e =>
+    cases e with
+    | timeout => exact Or.inr (Or.inl (I.T3a c sid hr))
+    | shuttingDown => exact Or.inr (Or.inr (Or.inr (I2.RS c _ hr)))
+    | cancelled => exact absurd hr (I2.RCn c _)
+    | closed => exact Or.inr (Or.inr (Or.inl (I.E3 sid ((I.D1 sid).2.1 (I2.RC2 c sid hr)))))
+    | refused => have := I2.RF c _ hr; cases this
+
+/-- **T4 (register before completion).** -/
+theorem T4_register_before_completion (cfg : Cfg) (hg : cfg.Good) (steps : List Step) (c sid : Nat)
+    (h : Ev.hConnect sid ∈ (runC cfg init steps).log) (hc : Ev.created c sid ∈ (runC cfg init steps).log) :
+    Ev.registered c sid ∈ (runC cfg init steps).log := by
+  rw [runC_good hg] at h hc ⊢; exact Core.T4_register_before_completion steps c sid h hc
+
+/-- **T5 (no stranded caller, safety half).** -/
+theorem T5_no_lost_wakeup (cfg : Cfg) (hg : cfg.Good) (steps : List Step) (c sid : Nat)
+    (hp : ((runC cfg init steps).callers c).pc = .parked sid false)
+    (hpred : ((runC cfg init steps).callers c).done ≠ none ∨ (runC cfg init steps).shuttingDown = true) :
+    (runC cfg init steps).io = .connNotify c sid ∨ (runC cfg init steps).io = .closeNotify c sid := by
+  rw [runC_good hg] at hp hpred ⊢; exact Core.T5_no_lost_wakeup steps c sid hp hpred
+
+/-- **T5 / "in time" — PARTIAL.** Proved: from ANY state in which `syncMutex` is free, a parked caller that takes its timeout
+returns within three of its own steps; a caller holding the mutex releases it within three of its own steps. Tied, not proved:
+that the wait lasts the caller's `timeout` (skeleton fact `connectTimingArgs` on the `wait_for` argument and the wrapper's
+sub-interval arithmetic; DetSched virtual-time monitor; real-time monitor on the sequential op). Wall-clock slack: not proved. -/
+theorem T5_step_bound (cfg : Cfg) (hg : cfg.Good) (s : State) (c sid : Nat) (a : Bool) (hp : (s.callers c).pc = .parked sid a)
+    (hl : s.lock = none) : Core.returned ((runC cfg s [.cWake c true, .cClose c, .cRelock c]).callers c).pc := by
+  rw [runC_good hg]; exact Core.T5_step_bound s c sid a hp hl
+
+theorem T5_lock_released (cfg : Cfg) (hg : cfg.Good) (steps : List Step) (c : Nat) (hl : (runC cfg init steps).lock = some c) :
+    (runC cfg (runC cfg init steps) [.cConnect c, .cRegister c, .cPark c]).lock = none := by
+  rw [runC_good hg, runC_good hg] at *; exact Core.T5_lock_released steps c hl
+
+/-- **T5 (fence).** -/
+theorem T5_fence_rejects (cfg : Cfg) (hg : cfg.Good) (s : State) (c : Nat) (hp : (s.callers c).pc = .start) (hl : s.lock = none)
+    (hs : s.shuttingDown = true) :
+    (stepC cfg s (.cEnter c)).fifo = s.fifo ∧ (stepC cfg s (.cEnter c)).nextSid = s.nextSid ∧
+    Ev.attemptRet c none (.err .shuttingDown) ∈ (stepC cfg s (.cEnter c)).log ∧
+    Core.returned ((stepC cfg s (.cEnter c)).callers c).pc := by
+  rw [stepC_good hg]; exact Core.T5_fence_rejects s c hp hl hs
+
+/-- **M3 (the `engine->connect` error branch).** When the engine refuses (e.g. `TcpEngine::connect` on a closed queue after a plain
+`stop()`), the call returns that error at once: the mutex is released, nothing is registered or counted, nothing was enqueued
+and no session id exists for this attempt. -/
+theorem T_connect_refused (cfg : Cfg) (hg : cfg.Good) (s : State) (c : Nat) (hp : (s.callers c).pc = .haveLock) :
+    let s' := stepC cfg s (.cRefuse c)
+    s'.lock = none ∧ s'.pend = s.pend ∧ s'.activeConnects = s.activeConnects ∧ s'.fifo = s.fifo ∧ s'.nextSid = s.nextSid ∧
+    Ev.attemptRet c none (.err .refused) ∈ s'.log ∧ Core.returned (s'.callers c).pc := by
+  rw [stepC_good hg]
+  simp only [step, doRefuse, hp, ret, setC_same]
+  refine ⟨trivial, trivial, trivial, trivial, trivial, ?_, retPc_cases _ _⟩
+  simp [mem_retEvs]
+
+/-- **H2 (the requested TLS mode).** Argument layer, every schedule: the session an attempt is working on — in particular the one a
+call returns `ok sid` for — was created by an `engine->connect` carrying the TLS mode THIS call requested. -/
+theorem T_tls_mode_as_requested (cfg : Cfg) (hg : cfg.Good) (steps : List (Step × Nat)) (c sid : Nat) (a : Bool)
+    (hp : ((xrun cfg xinit steps).core.callers c).pc = .parked sid a) :
+    (xrun cfg xinit steps).sessTls sid = (xrun cfg xinit steps).reqTls c :=
+  (xrun_inv hg steps xinit Inv_init InvX_init).2 c sid (by simp [hp, att])
+
+/-- **T6 (cancellable wrapper).** -/
+theorem T6_wrapper_ok (cfg : Cfg) (hg : cfg.Good) (steps : List Step) (c sid : Nat)
+    (h : Ev.wrapRet c (.ok sid) ∈ (runC cfg init steps).log) :
+    Ev.attemptRet c (some sid) (.ok sid) ∈ (runC cfg init steps).log ∧ ∀ c', Ev.engineClose c' sid ∉ (runC cfg init steps).log := by
+  rw [runC_good hg] at h ⊢; exact Core.T6_wrapper_ok steps c sid h
+
+theorem T6_cancelled_only_if_cancelled (cfg : Cfg) (hg : cfg.Good) (steps : List Step) (c : Nat)
+    (h : Ev.wrapRet c (.err .cancelled) ∈ (runC cfg init steps).log) : ((runC cfg init steps).callers c).cancelled = true := by
+  rw [runC_good hg] at h ⊢; exact Core.T6_cancelled_only_if_cancelled steps c h
+
+theorem T6_precancelled (cfg : Cfg) (hg : cfg.Good) (s : State) (c : Nat)
+    (hp : (s.callers c).pc = .idle ∨ (s.callers c).pc = .finished) (hc : (s.callers c).cancelled = true) :
+    (stepC cfg s (.call c true)).log = s.log ++ [.wrapRet c (.err .cancelled)] ∧ (stepC cfg s (.call c true)).fifo = s.fifo := by
+  rw [stepC_good hg]; exact Core.T6_precancelled s c hp hc
+
+/-! ### non-vacuity: concrete runs satisfying the hypotheses -/
+/-- a successful call: `ret ok 1` is in the log (T1, T4, T6 hypotheses) -/
+example : Ev.attemptRet 0 (some 1) (.ok 1) ∈
+    (run init [.call 0 false, .cEnter 0, .cConnect 0, .cRegister 0, .cPark 0, .ioPop true, .ioComplete 1, .ioStep, .ioStep, .cWake 0 false]).log := by
+  decide
+/-- parked with its completion delivered and the notify still pending (T5_no_lost_wakeup hypotheses) -/
+example : let s := run init [.call 0 false, .cEnter 0, .cConnect 0, .cRegister 0, .cPark 0, .ioPop true, .ioComplete 1, .ioStep]
+    (s.callers 0).pc = .parked 1 false ∧ (s.callers 0).done = some (.ok 1) ∧ s.io = .connNotify 0 1 := by decide
+/-- a timeout run: `engine->close` issued, FIFO drained, session closed, nothing global (T3 hypotheses) -/
+example : let s := run init [.call 0 false, .cEnter 0, .cConnect 0, .cRegister 0, .cPark 0, .cWake 0 true, .cClose 0, .cRelock 0,
+      .ioPop true, .ioPop true, .ioStep, .ioStep]
+    Ev.attemptRet 0 (some 1) (.err .timeout) ∈ s.log ∧ Ev.engineClose 0 1 ∈ s.log ∧ s.fifo = [] ∧ s.eng 1 = .closed ∧
+    Ev.globalClose 1 ∉ s.log := by decide
+/-- the F16 history on the repaired model: timeout, the connect completes in the unlock window, the Close is processed — the
+abandoned record survives the late `onConnect`, `onClose` reaps it, no global callback fires -/
+example : let s := run init [.call 0 false, .cEnter 0, .cConnect 0, .cRegister 0, .cPark 0, .cWake 0 true, .ioPop true,
+      .ioComplete 1, .ioStep, .cClose 0, .cRelock 0, .ioPop true, .ioStep, .ioStep]
+    Ev.attemptRet 0 (some 1) (.err .timeout) ∈ s.log ∧ Ev.reaped 1 ∈ s.log ∧ Ev.globalClose 1 ∉ s.log ∧
+    Ev.globalConnect 1 ∉ s.log := by decide
+/-- a global close of a handed-out session (T2 hypotheses): the caller returned `ok 1`, later the peer closes -/
+example : let s := run init [.call 0 false, .cEnter 0, .cConnect 0, .cRegister 0, .cPark 0, .ioPop true, .ioComplete 1, .ioStep,
+      .ioStep, .cWake 0 false, .ioPeerClose 1, .ioStep, .ioStep]
+    Ev.globalClose 1 ∈ s.log ∧ Ev.created 0 1 ∈ s.log ∧ Ev.attemptRet 0 (some 1) (.ok 1) ∈ s.log := by decide
+/-- a refused connect and a fence rejection -/
+example : (run init [.call 0 false, .cEnter 0, .cRefuse 0]).log = [.attemptRet 0 none (.err .refused)] ∧
+    (run init [.call 0 false, .cEnter 0, .cRefuse 0]).lock = none := by decide
+example : (run init [.fence, .call 0 false, .cEnter 0]).log = [.fenceSet, .attemptRet 0 none (.err .shuttingDown)] := by decide
+/-- the cancellable wrapper: one sub-attempt times out, the token is cancelled, the loop check returns Cancelled; the abandoned
+sub-attempt's `engine->close` is in the log (T3_non_ok_leaves_nothing_open, T6 hypotheses) -/
+example : let s := run init [.call 0 true, .cEnter 0, .cConnect 0, .cRegister 0, .cPark 0, .cWake 0 true, .cClose 0, .cRelock 0,
+      .cancel 0, .wLoop 0 false]
+    Ev.wrapRet 0 (.err .cancelled) ∈ s.log ∧ Ev.engineClose 0 1 ∈ s.log ∧ (s.callers 0).cancelled = true := by decide
+/-- the argument layer: a call requesting TLS mode 1 -/
+example : let x := xrun genCfg xinit [(.call 0 false, 1), (.cEnter 0, 0), (.cConnect 0, 0), (.cRegister 0, 0), (.cPark 0, 0)]
+    (x.core.callers 0).pc = .parked 1 false ∧ x.sessTls 1 = 1 ∧ x.reqTls 0 = 1 := by decide
 
 end Iora.C04
